@@ -33,55 +33,14 @@ RULE += (' ' +
          'Added in later rounds: a default version outside the allowed set; '
          'a 1.5 MiB frame cut at 14 offsets; the status / negotiation '
          'conversations on a Connection object whose earlier negotiating '
-         'connect() had failed. ')
-RULE += (' ' +
-         'Added in later rounds: a default version outside the allowed set; '
-         'a 1.5 MiB frame cut at 14 offsets; the status / negotiation '
-         'conversations on a Connection object whose earlier negotiating '
-         "connect() had failed. Round 11: component select - the client's "
-         'own select() fails from its n-th call on (descriptor out of range, '
-         'EBADF, ENOMEM); the thread must end and report, >300 further calls '
-         'is a busy loop. ')
-RULE += (' ' +
-         'Added in later rounds: a default version outside the allowed set; '
-         'a 1.5 MiB frame cut at 14 offsets; the status / negotiation '
-         'conversations on a Connection object whose earlier negotiating '
          "connect() had failed. Round 11: component select - the client's "
          'own select() fails from its n-th call on (descriptor out of range, '
          'EBADF, ENOMEM); the thread must end and report, >300 further calls '
          'is a busy loop. Round 12: conversation negotiate_gone - the status '
          'conversation cut at every offset with every later connection '
-         'refused: an error must be reported. ')
-RULE += (' ' +
-         'Added in later rounds: a default version outside the allowed set; '
-         'a 1.5 MiB frame cut at 14 offsets; the status / negotiation '
-         'conversations on a Connection object whose earlier negotiating '
-         "connect() had failed. Round 11: component select - the client's "
-         'own select() fails from its n-th call on (descriptor out of range, '
-         'EBADF, ENOMEM); the thread must end and report, >300 further calls '
-         'is a busy loop. Round 12: conversation negotiate_gone - the status '
-         'conversation cut at every offset with every later connection '
-         'refused: an error must be reported. ')
-RULE += (' ' +
-         'Added in later rounds: a default version outside the allowed set; '
-         'a 1.5 MiB frame cut at 14 offsets; the status / negotiation '
-         'conversations on a Connection object whose earlier negotiating '
-         "connect() had failed. Round 11: component select - the client's "
-         'own select() fails from its n-th call on (descriptor out of range, '
-         'EBADF, ENOMEM); the thread must end and report, >300 further calls '
-         'is a busy loop. Round 12: conversation negotiate_gone - the status '
-         'conversation cut at every offset with every later connection '
-         'refused: an error must be reported. ')
-RULE += (' ' +
-         'Added in later rounds: a default version outside the allowed set; '
-         'a 1.5 MiB frame cut at 14 offsets; the status / negotiation '
-         'conversations on a Connection object whose earlier negotiating '
-         "connect() had failed. Round 11: component select - the client's "
-         'own select() fails from its n-th call on (descriptor out of range, '
-         'EBADF, ENOMEM); the thread must end and report, >300 further calls '
-         'is a busy loop. Round 12: conversation negotiate_gone - the status '
-         'conversation cut at every offset with every later connection '
-         'refused: an error must be reported. ')
+         'refused: an error must be reported. Round 16: status conversations '
+         'with the default response / ping handlers under truncation '
+         '(status_default). ')
 LEVEL_TEXT = ('Enumeration of every crash point (byte offset) of reference '
               'server conversations with deterministic step budgets; '
               'exhaustive per stream in the thorough tier, strided with all '
